@@ -19,13 +19,13 @@
       [moved_leaf], [run_rename_leaf]);
     - H. writing through an arbitrary handle; I. reading handles, read-only
       handles, directory listings ([child_names_In], [join2_child]);
-    - Z. worked examples: nine laws proved with the extra budget hypothesis.
+    - Z. worked examples: nine laws, with exactly the hypotheses of the
+      corresponding [api_laws] fields.
 
-    Walk budget: the lemmas of Proofs/FsFacts.v need
-    [length (comps q) + 2 < walk_fuel] for the world path [q]; it is not
-    derivable from [world_okb] (keys may be arbitrarily deep), so it is kept
-    as the explicit hypothesis [short pfx p] (string length) or [shortk pfx p]
-    (key length, the weaker one).
+    Walk budget: [resolve f q] runs the walk with the budget
+    [walk_fuel + length q], which always suffices for a path whose parents
+    are not symlinks; the lemmas of Proofs/FsFacts.v about [direct] /
+    [nolinkpar] paths, and hence the lemmas here, carry no budget hypothesis.
 
     Typing remark: [st_fs s !! wkey pfx p] is elaborated here at the key type
     [key], in Proofs/FsFacts.v at [list str]; [rewrite]/[destruct] with a
@@ -257,10 +257,6 @@ Proof. intros f k [m Hm] m' t H. rewrite Hm in H. discriminate H. Qed.
 (* ------------------------------------------------------------------ *)
 (** * B. View paths and world paths *)
 
-(** the walk budget for the world path of [p], by string length and by key length *)
-Definition short (pfx p : str) : Prop := length (wpath pfx p) + 2 < walk_fuel.
-Definition shortk (pfx p : str) : Prop := length (wkey pfx p) + 2 < walk_fuel.
-
 Lemma prefix_ok_abs_cleaned : forall pfx, prefix_ok pfx -> abs_cleaned pfx.
 Proof. intros pfx [H _]. exact H. Qed.
 
@@ -398,26 +394,6 @@ Proof.
   - subst p. rewrite wpath_root by exact Hp. lia.
   - rewrite wpath_app by assumption. rewrite app_length. lia.
 Qed.
-
-Lemma short_by_length : forall pfx p,
-  prefix_ok pfx -> abs_cleaned p -> length pfx + length p + 2 < walk_fuel -> short pfx p.
-Proof. intros pfx p Hp Hac H. unfold short. pose proof (wpath_length pfx p Hp Hac). lia. Qed.
-
-Lemma short_shortk : forall pfx p,
-  prefix_ok pfx -> is_abs p = true -> short pfx p -> shortk pfx p.
-Proof.
-  intros pfx p Hp Ha H. unfold shortk. rewrite <- (comps_wpath pfx p Hp Ha).
-  apply walk_budget_by_length; [apply wpath_abs_cleaned; assumption | exact H].
-Qed.
-
-(** the budget hypothesis in the form the lemmas of FsFacts take it *)
-Lemma shortk_len : forall pfx p,
-  prefix_ok pfx -> is_abs p = true -> shortk pfx p -> length (comps (wpath pfx p)) + 2 < walk_fuel.
-Proof. intros pfx p Hp Ha H. rewrite (comps_wpath pfx p Hp Ha). exact H. Qed.
-
-Lemma short_len : forall pfx p,
-  prefix_ok pfx -> is_abs p = true -> short pfx p -> length (comps (wpath pfx p)) + 2 < walk_fuel.
-Proof. intros pfx p Hp Ha H. apply shortk_len; try assumption. apply short_shortk; assumption. Qed.
 
 (** B2 *)
 Lemma join2_wpath : forall pfx p,
@@ -2293,20 +2269,19 @@ Definition unresolvable (f : fs) (q : str) : Prop :=
   forall follow, exists e, resolve f q follow = WErr e /\ is_not_found e = true.
 
 Lemma nolinkpar_unresolvable : forall f q,
-  wf f -> length (comps q) + 2 < walk_fuel -> nolinkpar f q -> ~ direct f q -> unresolvable f q.
-Proof. intros f q Hwf Hlen Hnl Hnd follow. apply resolve_nolinkpar_notfound; assumption. Qed.
+  wf f -> nolinkpar f q -> ~ direct f q -> unresolvable f q.
+Proof. intros f q Hwf Hnl Hnd follow. apply resolve_nolinkpar_notfound; assumption. Qed.
 
 (** the world path of a view path under [snolinkpar]: direct or unresolvable *)
 Lemma wpath_direct_or_unresolvable : forall pfx (f : fs) p,
-  prefix_ok pfx -> world_okb pfx f = true -> abs_cleaned p -> shortk pfx p ->
+  prefix_ok pfx -> world_okb pfx f = true -> abs_cleaned p ->
   snolinkpar (view_of pfx f) p ->
   direct f (wpath pfx p) \/ (unresolvable f (wpath pfx p) /\ f !! wkey pfx p = None).
 Proof.
-  intros pfx f p Hp Hok Hac Hs Hnl.
+  intros pfx f p Hp Hok Hac Hnl.
   destruct (nolinkpar_direct_or_absent pfx f p Hp Hok (proj2 Hac)) as [H|[H Hn]]; [left; exact H|].
   right. split; [|exact Hn]. apply nolinkpar_unresolvable.
   - exact (world_okb_wf _ _ Hok).
-  - apply shortk_len; [exact Hp | exact (proj2 Hac) | exact Hs].
   - apply (snolinkpar_view pfx f p Hp Hok Hac). exact Hnl.
   - exact H.
 Qed.
@@ -2511,11 +2486,9 @@ Section Run.
   Hypothesis Hq : quiet w.
   Variable p : str.
   Hypothesis Hac : abs_cleaned p.
-  Hypothesis Hs : shortk pfx p.
 
-  Ltac run_setup Hp Hac Hs :=
-    let LEN := fresh "LEN" in let CW := fresh "CW" in
-    pose proof (shortk_len _ _ Hp (proj2 Hac) Hs) as LEN;
+  Ltac run_setup Hp Hac :=
+    let CW := fresh "CW" in
     pose proof (comps_wpath _ _ Hp (proj2 Hac)) as CW.
 
   Section Direct.
@@ -2529,10 +2502,10 @@ Section Run.
        | None => Err ENOENT
        end, w_st w).
   Proof.
-    run_setup Hp Hac Hs.
+    run_setup Hp Hac.
     rewrite (the_api_lstat tag pfx Hp p (proj2 Hac)).
     rewrite (spied_fs_get_map_quiet _ _ tag (PM MLstat) p [] _ _ w Hq).
-    rewrite (fs_lstat_direct (w_st w) (wpath pfx p) Hdir LEN), CW. unfold fin. dlook pfx p as [n|]; [|reflexivity].
+    rewrite (fs_lstat_direct (w_st w) (wpath pfx p) Hdir), CW. unfold fin. dlook pfx p as [n|]; [|reflexivity].
     cbn [fst snd mres_of mres_map err_of fi_name info_of]. rewrite set_info_name_info_of.
     rewrite (info_name_wpath pfx p Hp Hac). reflexivity.
   Qed.
@@ -2546,11 +2519,11 @@ Section Run.
        | None => Err ENOENT
        end, w_st w).
   Proof.
-    run_setup Hp Hac Hs.
+    run_setup Hp Hac.
     intros Hnl. rewrite <- CW in Hnl.
     rewrite (the_api_stat tag pfx Hp p (proj2 Hac)).
     rewrite (spied_fs_get_map_quiet _ _ tag (PM MStat) p [] _ _ w Hq).
-    rewrite (fs_stat_direct (w_st w) (wpath pfx p) Hdir LEN Hnl), CW. unfold fin. dlook pfx p as [n|]; [|reflexivity].
+    rewrite (fs_stat_direct (w_st w) (wpath pfx p) Hdir Hnl), CW. unfold fin. dlook pfx p as [n|]; [|reflexivity].
     cbn [fst snd mres_of mres_map err_of fi_name info_of]. rewrite set_info_name_info_of.
     rewrite (info_name_wpath pfx p Hp Hac). reflexivity.
   Qed.
@@ -2564,10 +2537,10 @@ Section Run.
        | None => Err ENOENT
        end, w_st w).
   Proof.
-    run_setup Hp Hac Hs.
+    run_setup Hp Hac.
     rewrite (the_api_readlink tag pfx Hp p (proj2 Hac)).
     rewrite (spied_fs_get_map_quiet _ _ tag (PM MReadlink) p [] _ _ w Hq).
-    rewrite (fs_readlink_direct_gen (w_st w) (wpath pfx p) Hdir LEN), CW. unfold fin. dlook pfx p as [[m|m c|m t]|]; reflexivity.
+    rewrite (fs_readlink_direct_gen (w_st w) (wpath pfx p) Hdir), CW. unfold fin. dlook pfx p as [[m|m c|m t]|]; reflexivity.
   Qed.
 
   Lemma run_mkdir : forall perm,
@@ -2583,10 +2556,10 @@ Section Run.
                                           then sgid_bit else 0%N)) 0%N g t)))
        end).
   Proof.
-    run_setup Hp Hac Hs.
+    run_setup Hp Hac.
     intros perm. rewrite (the_api_mkdir tag pfx Hp p perm (proj2 Hac)).
     rewrite (spied_fs_upd_fin _ tag (PM MMkdir) p [] _ w Hq).
-    rewrite (fs_mkdir_direct (w_st w) (wpath pfx p) perm Hdir LEN), CW. dlook pfx p as [n|]; [reflexivity|].
+    rewrite (fs_mkdir_direct (w_st w) (wpath pfx p) perm Hdir), CW. dlook pfx p as [n|]; [reflexivity|].
     destruct (wkey pfx p) eqn:E; [exfalso; exact (wkey_nonnil pfx p Hp E) | reflexivity].
   Qed.
 
@@ -2605,17 +2578,17 @@ Section Run.
                                           then sgid_bit else 0%N)) 0%N g t)))
        end).
   Proof.
-    run_setup Hp Hac Hs.
+    run_setup Hp Hac.
     intros perm Hnl. rewrite (the_api_mkdirall tag pfx Hp p perm (proj2 Hac)).
     rewrite (spied_fs_upd_fin _ tag (PM MMkdirAll) p [] _ w Hq).
     assert (Hc : comps (wpath pfx p) <> []) by (rewrite CW; apply wkey_nonnil; exact Hp).
     dlook pfx p as [[m|m c|m t]|] eqn:E.
-    - rewrite (fs_mkdirall_direct_dir (w_st w) (wpath pfx p) perm m Hdir LEN); [reflexivity|].
+    - rewrite (fs_mkdirall_direct_dir (w_st w) (wpath pfx p) perm m Hdir); [reflexivity|].
       rewrite CW. exact E.
-    - rewrite (fs_mkdirall_direct_file (w_st w) (wpath pfx p) perm m c Hdir LEN); [reflexivity|].
+    - rewrite (fs_mkdirall_direct_file (w_st w) (wpath pfx p) perm m c Hdir); [reflexivity|].
       rewrite CW. exact E.
     - exfalso. exact (Hnl m t E).
-    - rewrite (fs_mkdirall_direct_missing_eq (w_st w) (wpath pfx p) perm Hdir LEN Hc);
+    - rewrite (fs_mkdirall_direct_missing_eq (w_st w) (wpath pfx p) perm Hdir Hc);
         [| rewrite CW; exact E].
       rewrite CW. reflexivity.
   Qed.
@@ -2631,10 +2604,10 @@ Section Run.
        | None => (Err ENOENT, w_st w)
        end).
   Proof.
-    run_setup Hp Hac Hs.
+    run_setup Hp Hac.
     rewrite (the_api_remove tag pfx Hp p (proj2 Hac)).
     rewrite (spied_fs_upd_fin _ tag (PM MRemove) p [] _ w Hq).
-    rewrite (fs_remove_direct (w_st w) (wpath pfx p) Hdir LEN), CW. dlook pfx p as [[m|m c|m t]|]; try reflexivity.
+    rewrite (fs_remove_direct (w_st w) (wpath pfx p) Hdir), CW. dlook pfx p as [[m|m c|m t]|]; try reflexivity.
     destruct (wkey pfx p) eqn:E; [exfalso; exact (wkey_nonnil pfx p Hp E) | reflexivity].
   Qed.
 
@@ -2650,10 +2623,10 @@ Section Run.
        | None => (Ok tt, w_st w)
        end).
   Proof.
-    run_setup Hp Hac Hs.
+    run_setup Hp Hac.
     rewrite (the_api_removeall tag pfx Hp p (proj2 Hac)).
     rewrite (spied_fs_upd_fin _ tag (PM MRemoveAll) p [] _ w Hq).
-    rewrite (fs_removeall_direct (w_st w) (wpath pfx p) Hdir LEN), CW. dlook pfx p as [n|]; [|reflexivity].
+    rewrite (fs_removeall_direct (w_st w) (wpath pfx p) Hdir), CW. dlook pfx p as [n|]; [|reflexivity].
     destruct (wkey pfx p) eqn:E; [exfalso; exact (wkey_nonnil pfx p Hp E) | reflexivity].
   Qed.
 
@@ -2666,11 +2639,11 @@ Section Run.
        | None => (Err ENOENT, w_st w)
        end).
   Proof.
-    run_setup Hp Hac Hs.
+    run_setup Hp Hac.
     intros mode Hnl. rewrite <- CW in Hnl.
     rewrite (the_api_chmod tag pfx Hp p mode (proj2 Hac)).
     rewrite (spied_fs_upd_fin _ tag (PM MChmod) p [] _ w Hq).
-    rewrite (fs_chmod_direct (w_st w) (wpath pfx p) mode Hdir LEN Hnl), CW. reflexivity.
+    rewrite (fs_chmod_direct (w_st w) (wpath pfx p) mode Hdir Hnl), CW. reflexivity.
   Qed.
 
   Lemma run_chtimes : forall t,
@@ -2682,11 +2655,11 @@ Section Run.
        | None => (Err ENOENT, w_st w)
        end).
   Proof.
-    run_setup Hp Hac Hs.
+    run_setup Hp Hac.
     intros t Hnl. rewrite <- CW in Hnl.
     rewrite (the_api_chtimes tag pfx Hp p t (proj2 Hac)).
     rewrite (spied_fs_upd_fin _ tag (PM MChtimes) p [] _ w Hq).
-    rewrite (fs_chtimes_direct (w_st w) (wpath pfx p) t Hdir LEN Hnl), CW. reflexivity.
+    rewrite (fs_chtimes_direct (w_st w) (wpath pfx p) t Hdir Hnl), CW. reflexivity.
   Qed.
 
   Lemma run_chown : forall u g,
@@ -2698,11 +2671,11 @@ Section Run.
        | None => (Err ENOENT, w_st w)
        end).
   Proof.
-    run_setup Hp Hac Hs.
+    run_setup Hp Hac.
     intros u g Hnl. rewrite <- CW in Hnl.
     rewrite (the_api_chown tag pfx Hp p u g (proj2 Hac)).
     rewrite (spied_fs_upd_fin _ tag (PM MChown) p [] _ w Hq).
-    rewrite (fs_chown_direct (w_st w) (wpath pfx p) u g Hdir LEN Hnl), CW. reflexivity.
+    rewrite (fs_chown_direct (w_st w) (wpath pfx p) u g Hdir Hnl), CW. reflexivity.
   Qed.
 
   Lemma run_lchown : forall u g,
@@ -2713,11 +2686,11 @@ Section Run.
        | None => (Err ENOENT, w_st w)
        end).
   Proof.
-    run_setup Hp Hac Hs.
+    run_setup Hp Hac.
     intros u g.
     rewrite (the_api_lchown tag pfx Hp p u g (proj2 Hac)).
     rewrite (spied_fs_upd_fin _ tag (PM MLchown) p [] _ w Hq).
-    rewrite (fs_lchown_direct (w_st w) (wpath pfx p) u g Hdir LEN), CW. reflexivity.
+    rewrite (fs_lchown_direct (w_st w) (wpath pfx p) u g Hdir), CW. reflexivity.
   Qed.
 
   Lemma run_symlink : forall t,
@@ -2734,11 +2707,11 @@ Section Run.
          end
        else (Err (ELayer EPERM), w_st w)).
   Proof.
-    run_setup Hp Hac Hs.
+    run_setup Hp Hac.
     intros t Ht. rewrite (the_api_symlink tag pfx Hp t p (proj2 Hac)).
     destruct (sym_accb pfx t p).
     - rewrite (spied_fs_upd_fin _ tag (PM MSymlink) p t _ w Hq).
-      rewrite (fs_symlink_direct (w_st w) (sym_target pfx t) (wpath pfx p) Hdir LEN
+      rewrite (fs_symlink_direct (w_st w) (sym_target pfx t) (wpath pfx p) Hdir
                  (sym_target_nonempty pfx t Ht)), CW. dlook pfx p as [n|]; [reflexivity|].
       destruct (wkey pfx p) eqn:E; [exfalso; exact (wkey_nonnil pfx p Hp E) | reflexivity].
     - rewrite (spied_quiet_run _ tag (PM MSymlink) p t _ w (MErr (ELayer EPERM)) (tickw w) Hq);
@@ -2779,11 +2752,11 @@ Section Run.
            else (Err ENOENT, w_st w)
        end).
   Proof.
-    run_setup Hp Hac Hs.
+    run_setup Hp Hac.
     intros fl perm Hside. rewrite <- CW in Hside.
     rewrite (the_api_openfile tag pfx Hp p fl perm w (proj2 Hac)).
     rewrite (spied_fs_upd_finmap _ _ _ tag (PM MOpenFile) p [] _ w Hq).
-    rewrite (fs_open_direct (w_st w) (wpath pfx p) fl perm Hdir LEN Hside), CW.
+    rewrite (fs_open_direct (w_st w) (wpath pfx p) fl perm Hdir Hside), CW.
     dlook pfx p as [n|]; [reflexivity|].
     destruct (wkey pfx p) eqn:E; [exfalso; exact (wkey_nonnil pfx p Hp E) | reflexivity].
   Qed.
@@ -2827,11 +2800,11 @@ Section Run.
               (fun t g => File (mkMeta (N.land 438 4095%N) 0%N g t) []))
        end).
   Proof.
-    run_setup Hp Hac Hs.
+    run_setup Hp Hac.
     intros Hnl. rewrite <- CW in Hnl.
     rewrite (the_api_create tag pfx Hp p w (proj2 Hac)).
     rewrite (spied_fs_upd_finmap _ _ _ tag (PM MCreate) p [] _ w Hq).
-    rewrite (fs_open_direct (w_st w) (wpath pfx p) 578 438 Hdir LEN (or_intror Hnl)), CW.
+    rewrite (fs_open_direct (w_st w) (wpath pfx p) 578 438 Hdir (or_intror Hnl)), CW.
     dlook pfx p as [[m|m c|m t]|]; try reflexivity.
     destruct (wkey pfx p) eqn:E; [exfalso; exact (wkey_nonnil pfx p Hp E) | reflexivity].
   Qed.
@@ -2848,11 +2821,11 @@ Section Run.
        | None => (Err ENOENT, w_st w)
        end).
   Proof.
-    run_setup Hp Hac Hs.
+    run_setup Hp Hac.
     intros Hnl. rewrite <- CW in Hnl.
     rewrite (the_api_open tag pfx Hp p w (proj2 Hac)).
     rewrite (spied_fs_upd_finmap _ _ _ tag (PM MOpen) p [] _ w Hq).
-    rewrite (fs_open_direct (w_st w) (wpath pfx p) 0 0 Hdir LEN (or_intror Hnl)), CW.
+    rewrite (fs_open_direct (w_st w) (wpath pfx p) 0 0 Hdir (or_intror Hnl)), CW.
     dlook pfx p as [[m|m c|m t]|]; try reflexivity.
     destruct (wkey pfx p) eqn:E; [exfalso; exact (wkey_nonnil pfx p Hp E) | reflexivity].
   Qed.
@@ -3080,8 +3053,8 @@ Definition moved_leaf (s : fstate) (ko kn : key) (no : node) : fstate :=
 
 Lemma fs_rename_direct_leaf : forall s po pn,
   wf (st_fs s) ->
-  direct (st_fs s) po -> length (comps po) + 2 < walk_fuel ->
-  direct (st_fs s) pn -> length (comps pn) + 2 < walk_fuel ->
+  direct (st_fs s) po ->
+  direct (st_fs s) pn ->
   comps po <> [] -> comps pn <> [] ->
   has_children (st_fs s) (comps po) = false ->
   fs_rename s po pn =
@@ -3102,10 +3075,10 @@ Lemma fs_rename_direct_leaf : forall s po pn,
         end
     end.
 Proof.
-  intros s po pn Hwf Hdo Hlo Hdn Hln Hco Hcn Hnc. unfold fs_rename.
+  intros s po pn Hwf Hdo Hdn Hco Hcn Hnc. unfold fs_rename.
   rewrite (strip_or_self_abs_cleaned pn (proj1 Hdn)).
-  rewrite (resolve_direct _ po false Hdo Hlo (or_introl eq_refl)).
-  rewrite (resolve_direct _ pn false Hdn Hln (or_introl eq_refl)).
+  rewrite (resolve_direct _ po false Hdo (or_introl eq_refl)).
+  rewrite (resolve_direct _ pn false Hdn (or_introl eq_refl)).
   pose proof (proj1 (has_children_false_iff (st_fs s) (comps po)) Hnc) as Hnc'. clear Hnc. rename Hnc' into Hnc.
   destruct (st_fs s !! comps po) as [no|] eqn:Eo.
   2:{ destruct (comps po) as [|c r] eqn:Ek; [contradiction|].
@@ -3239,7 +3212,7 @@ Qed.
 
 Lemma run_rename_leaf : forall tag pfx w po pn,
   prefix_ok pfx -> quiet w -> world_okb pfx (st_fs (w_st w)) = true ->
-  abs_cleaned po -> abs_cleaned pn -> shortk pfx po -> shortk pfx pn ->
+  abs_cleaned po -> abs_cleaned pn ->
   direct (st_fs (w_st w)) (wpath pfx po) -> direct (st_fs (w_st w)) (wpath pfx pn) ->
   has_children (st_fs (w_st w)) (wkey pfx po) = false ->
   a_rename (the_api tag pfx) po pn w =
@@ -3260,13 +3233,13 @@ Lemma run_rename_leaf : forall tag pfx w po pn,
          end
      end).
 Proof.
-  intros tag pfx w po pn Hp Hq Hok Ho Hn Hso Hsn Hdo Hdn Hnc.
+  intros tag pfx w po pn Hp Hq Hok Ho Hn Hdo Hdn Hnc.
   pose proof (comps_wpath pfx po Hp (proj2 Ho)) as CO.
   pose proof (comps_wpath pfx pn Hp (proj2 Hn)) as CN.
   rewrite (the_api_rename tag pfx Hp po pn (proj2 Ho) (proj2 Hn)).
   rewrite (spied_fs_upd_fin _ tag (PM MRename) po pn _ w Hq).
   rewrite (fs_rename_direct_leaf (w_st w) (wpath pfx po) (wpath pfx pn) (world_okb_wf _ _ Hok)
-             Hdo (shortk_len pfx po Hp (proj2 Ho) Hso) Hdn (shortk_len pfx pn Hp (proj2 Hn) Hsn)).
+             Hdo Hdn).
   - rewrite CO, CN, (key_eqb_wkey pfx po pn Ho Hn).
     assert (E : str_eqb (wpath pfx po) (wpath pfx pn) = str_eqb po pn).
     { destruct (str_eqb po pn) eqn:E.
@@ -3516,9 +3489,9 @@ Qed.
 
 (* ------------------------------------------------------------------ *)
 (** * Z. Worked examples: some laws of Spec/Laws.v for [the_api tag pa] with
-      the view [Vp pa] and the other view [Vp pb], under the additional
-      budget hypothesis [shortk pa p] (see the remark on the walk budget at
-      the top).  They show how the lemmas above combine; the proofs of the
+      the view [Vp pa] and the other view [Vp pb], with exactly the
+      hypotheses of the corresponding fields of [api_laws] (no budget
+      hypothesis: see the remark on the walk budget at the top).  They show how the lemmas above combine; the proofs of the
       remaining laws follow the same pattern. *)
 
 Section Examples.
@@ -3532,16 +3505,15 @@ Section Examples.
   Notation V' := (Vp pb).
 
   Lemma ex_law_lstat_some : forall w p n, quiet w -> swf (V w) -> snolinkpar (V w) p -> V w !! p = Some n ->
-    shortk pa p ->
     exists fi, ok_step V V' (a_lstat A p) w fi (V w) /\ info_matches fi n /\ fi_mt fi = m_mt (node_meta n) /\
                fi_name fi = GoPath.base p.
   Proof.
-    intros w p n Hq Hwf Hnl Hl Hs. unfold ok_step.
+    intros w p n Hq Hwf Hnl Hl. unfold ok_step.
     destruct (Vp_lookup_Some_inv pa w p n Hl) as (Hok & Hac & nd & Hnd & En).
     pose proof (present_direct pa _ p nd Ha Hok (proj2 Hac) Hnd) as Hdir.
     rewrite (the_api_lstat tag pa Ha p (proj2 Hac)).
     rewrite (spied_fs_get_map_quiet _ _ tag (PM MLstat) p [] _ _ w Hq).
-    rewrite (fs_lstat_direct (w_st w) (wpath pa p) Hdir (shortk_len pa p Ha (proj2 Hac) Hs)).
+    rewrite (fs_lstat_direct (w_st w) (wpath pa p) Hdir).
     rewrite (comps_wpath pa p Ha (proj2 Hac)). norm_keys. rewrite Hnd. cbn [mres_of mres_map err_of].
     eexists. split; [|split; [|split]].
     - eexists. split; [reflexivity|]. split; [reflexivity | apply same_rest_after_same].
@@ -3551,9 +3523,9 @@ Section Examples.
   Qed.
 
   Lemma ex_law_lstat_none : forall w p, quiet w -> swf (V w) -> snolinkpar (V w) p -> V w !! p = None ->
-    shortk pa p -> err_step V V' (a_lstat A p) w not_found.
+    err_step V V' (a_lstat A p) w not_found.
   Proof.
-    intros w p Hq Hwf Hnl Hl Hs. unfold err_step.
+    intros w p Hq Hwf Hnl Hl. unfold err_step.
     pose proof (swf_Vp_world_okb pa w Hwf) as Hok.
     destruct (snolinkpar_Vp pa w p Ha Hok Hnl) as [Hac Hnlp].
     rewrite (Vp_lookup pa w p Hok Hac) in Hl.
@@ -3562,7 +3534,7 @@ Section Examples.
     rewrite (the_api_lstat tag pa Ha p (proj2 Hac)).
     rewrite (spied_fs_get_map_quiet _ _ tag (PM MLstat) p [] _ _ w Hq).
     pose proof (fs_lstat_nolinkpar (w_st w) (wpath pa p) (world_okb_wf _ _ Hok)
-                  (shortk_len pa p Ha (proj2 Hac) Hs) Hnlp) as E.
+                  Hnlp) as E.
     rewrite (comps_wpath pa p Ha (proj2 Hac)) in E. norm_keys. rewrite Hnone in E. destruct E as [e [E Hnf]].
     rewrite E. cbn [mres_of mres_map err_of].
     exists e. eexists. split; [reflexivity|]. split; [exact Hnf|].
@@ -3570,10 +3542,9 @@ Section Examples.
   Qed.
 
   Lemma ex_law_chmod : forall w p mode n, quiet w -> swf (V w) -> snolinkpar (V w) p -> V w !! p = Some n -> ~ is_link n ->
-    shortk pa p ->
     ok_step V V' (a_chmod A p mode) w tt (<[ p := with_meta n (set_perm mode) ]> (V w)).
   Proof.
-    intros w p mode n Hq Hwf Hnl Hl Hnlk Hs. unfold ok_step.
+    intros w p mode n Hq Hwf Hnl Hl Hnlk. unfold ok_step.
     destruct (Vp_lookup_Some_inv pa w p n Hl) as (Hok & Hac & nd & Hnd & En).
     pose proof (present_direct pa _ p nd Ha Hok (proj2 Hac) Hnd) as Hdir.
     assert (Hnl' : not_link_at (st_fs (w_st w)) (comps (wpath pa p))).
@@ -3581,7 +3552,7 @@ Section Examples.
       apply Hnlk. subst n nd. exists m, (vtarget pa t). reflexivity. }
     rewrite (the_api_chmod tag pa Ha p mode (proj2 Hac)).
     rewrite (spied_fs_upd_quiet _ tag (PM MChmod) p [] _ w Hq).
-    rewrite (fs_chmod_direct (w_st w) (wpath pa p) mode Hdir (shortk_len pa p Ha (proj2 Hac) Hs) Hnl').
+    rewrite (fs_chmod_direct (w_st w) (wpath pa p) mode Hdir Hnl').
     rewrite (comps_wpath pa p Ha (proj2 Hac)). norm_keys. rewrite Hnd. cbn [fst snd mres_of err_of].
     set (n' := set_meta nd _).
     assert (Hok' : world_okb pa (st_fs (update_node (w_st w) (wkey pa p) n')) = true).
@@ -3597,11 +3568,10 @@ Section Examples.
   Qed.
 
   Lemma ex_law_mkdirall_new : forall w p perm, quiet w -> swf (V w) -> sdirect (V w) p -> V w !! p = None ->
-    shortk pa p ->
     exists m' s', ok_step V V' (a_mkdirall A p perm) w tt s' /\ s' !! p = Some (Dir m') /\
                   store_eqv_except [p] s' (V w) /\ swf s'.
   Proof.
-    intros w p perm Hq Hwf Hsd Hl Hs. unfold ok_step.
+    intros w p perm Hq Hwf Hsd Hl. unfold ok_step.
     pose proof (swf_Vp_world_okb pa w Hwf) as Hok.
     destruct (sdirect_Vp pa w p Ha Hok Hsd) as [Hac Hdir].
     rewrite (Vp_lookup pa w p Hok Hac) in Hl.
@@ -3616,7 +3586,7 @@ Section Examples.
     rewrite (the_api_mkdirall tag pa Ha p perm (proj2 Hac)).
     rewrite (spied_fs_upd_quiet _ tag (PM MMkdirAll) p [] _ w Hq).
     rewrite (fs_mkdirall_direct_missing_eq (w_st w) (wpath pa p) perm Hdir
-               (shortk_len pa p Ha (proj2 Hac) Hs) Hc)
+               Hc)
       by (rewrite (comps_wpath pa p Ha (proj2 Hac)); exact Hnone).
     rewrite (comps_wpath pa p Ha (proj2 Hac)) in *. cbn [fst snd mres_of err_of].
     set (mk := fun (t : mtime) (g : N) => Dir _).
@@ -3638,11 +3608,11 @@ Section Examples.
   Qed.
 
   Lemma ex_law_symlink : forall w t p, quiet w -> swf (V w) -> sdirect (V w) p -> V w !! p = None ->
-    t <> [] -> acc_p pa t p -> shortk pa p ->
+    t <> [] -> acc_p pa t p ->
     exists m' s', ok_step V V' (a_symlink A t p) w tt s' /\ s' !! p = Some (Link m' (clean t)) /\
                   m_perm m' = 511%N /\ store_eqv_except [p] s' (V w) /\ swf s'.
   Proof.
-    intros w t p Hq Hwf Hsd Hl Ht Hacc Hs. unfold ok_step.
+    intros w t p Hq Hwf Hsd Hl Ht Hacc. unfold ok_step.
     pose proof (swf_Vp_world_okb pa w Hwf) as Hok.
     destruct (sdirect_Vp pa w p Ha Hok Hsd) as [Hac Hdir].
     pose proof (view_lookup_None_inv pa _ p Hok Hac) as Hnone. rewrite <- (Vp_ok pa w Hok) in Hnone.
@@ -3655,8 +3625,7 @@ Section Examples.
     pose proof (direct_parent_dir _ _ Hdir Hc) as Hpd.
     rewrite (the_api_symlink_acc tag pa Ha t p (proj2 Hac) Hacc).
     rewrite (spied_fs_upd_quiet _ tag (PM MSymlink) p t _ w Hq).
-    rewrite (fs_symlink_direct_missing (w_st w) (sym_target pa t) (wpath pa p) Hdir
-               (shortk_len pa p Ha (proj2 Hac) Hs) (sym_target_nonempty pa t Ht) Hc)
+    rewrite (fs_symlink_direct_missing (w_st w) (sym_target pa t) (wpath pa p) Hdir (sym_target_nonempty pa t Ht) Hc)
       by (rewrite (comps_wpath pa p Ha (proj2 Hac)); exact Hnone).
     rewrite (comps_wpath pa p Ha (proj2 Hac)) in *. cbn [fst snd mres_of err_of].
     set (mk := fun (t0 : mtime) (g : N) => Link _ _).
@@ -3702,10 +3671,10 @@ Section Examples.
   Qed.
 
   Lemma ex_law_remove_leaf : forall w p n, quiet w -> swf (V w) -> snolinkpar (V w) p -> V w !! p = Some n ->
-    no_children (V w) p -> p <> s_root -> shortk pa p ->
+    no_children (V w) p -> p <> s_root ->
     exists s', ok_step V V' (a_remove A p) w tt s' /\ s' !! p = None /\ store_eqv_except [p] s' (V w) /\ swf s'.
   Proof.
-    intros w p n Hq Hwf Hnl Hl Hnc Hne Hs. unfold ok_step.
+    intros w p n Hq Hwf Hnl Hl Hnc Hne. unfold ok_step.
     destruct (Vp_lookup_Some_inv pa w p n Hl) as (Hok & Hac & nd & Hnd & En).
     pose proof (world_okb_keys_good _ _ Hok) as Hg.
     pose proof (present_direct pa _ p nd Ha Hok (proj2 Hac) Hnd) as Hdir.
@@ -3718,12 +3687,11 @@ Section Examples.
     rewrite (spied_fs_upd_quiet _ tag (PM MRemove) p [] _ w Hq).
     assert (E : fs_remove (w_st w) (wpath pa p) = (Ok tt, remove_entry (w_st w) (wkey pa p))).
     { rewrite <- (comps_wpath pa p Ha (proj2 Hac)).
-      pose proof (shortk_len pa p Ha (proj2 Hac) Hs) as Hlen.
       rewrite <- (comps_wpath pa p Ha (proj2 Hac)) in Hnd, Hnc.
       destruct nd as [m|m c|m t].
-      - apply (fs_remove_direct_emptydir _ _ m Hdir Hlen Hnd Hc Hnc).
-      - apply (fs_remove_direct_nondir _ _ _ Hdir Hlen Hnd eq_refl).
-      - apply (fs_remove_direct_nondir _ _ _ Hdir Hlen Hnd eq_refl). }
+      - apply (fs_remove_direct_emptydir _ _ m Hdir Hnd Hc Hnc).
+      - apply (fs_remove_direct_nondir _ _ _ Hdir Hnd eq_refl).
+      - apply (fs_remove_direct_nondir _ _ _ Hdir Hnd eq_refl). }
     rewrite E. cbn [fst snd mres_of err_of].
     assert (Hok' : world_okb pa (st_fs (remove_entry (w_st w) (wkey pa p))) = true).
     { apply world_okb_remove_entry_wkey; assumption. }
@@ -3739,15 +3707,15 @@ Section Examples.
     - apply swf_view; assumption.
   Qed.
 
-  Lemma ex_law_user_mkdir : forall w p perm, quiet w -> swf (V w) -> snolinkpar (V w) p -> shortk pa p ->
+  Lemma ex_law_user_mkdir : forall w p perm, quiet w -> swf (V w) -> snolinkpar (V w) p ->
     framed V V' (a_mkdir A p perm) w [p].
   Proof.
-    intros w p perm Hq Hwf Hnl Hs. unfold framed.
+    intros w p perm Hq Hwf Hnl. unfold framed.
     pose proof (swf_Vp_world_okb pa w Hwf) as Hok.
     pose proof (proj1 Hnl) as Hac.
     rewrite (Vp_ok pa w Hok) in Hnl.
-    destruct (wpath_direct_or_unresolvable pa _ p Ha Hok Hac Hs Hnl) as [Hdir|[Hun Hnone]].
-    - rewrite (run_mkdir tag pa Ha w Hq p Hac Hs Hdir perm).
+    destruct (wpath_direct_or_unresolvable pa _ p Ha Hok Hac Hnl) as [Hdir|[Hun Hnone]].
+    - rewrite (run_mkdir tag pa Ha w Hq p Hac Hdir perm).
       dlook pa p as [nd|] eqn:Hnd.
       + rewrite fin_err. eexists. eexists. split; [reflexivity|].
         split; [discriminate|]. split; [apply same_rest_after_same|].
@@ -3778,9 +3746,9 @@ Section Examples.
   Qed.
 
   Lemma ex_law_user_rename : forall w po pn, quiet w -> swf (V w) -> snolinkpar (V w) po -> snolinkpar (V w) pn ->
-    no_children (V w) po -> shortk pa po -> shortk pa pn -> framed V V' (a_rename A po pn) w [po; pn].
+    no_children (V w) po -> framed V V' (a_rename A po pn) w [po; pn].
   Proof.
-    intros w po pn Hq Hwf Hnlo Hnln Hnc Hso Hsn. unfold framed.
+    intros w po pn Hq Hwf Hnlo Hnln Hnc. unfold framed.
     pose proof (swf_Vp_world_okb pa w Hwf) as Hok.
     pose proof (world_okb_keys_good _ _ Hok) as Hg.
     pose proof (world_okb_wf _ _ Hok) as Hwff.
@@ -3795,13 +3763,13 @@ Section Examples.
               r <> MHalt /\ same_rest V' w w' /\ swf (V w') /\ store_eqv_except [po; pn] (V w') (V w)).
     { eexists. eexists. split; [reflexivity|]. split; [discriminate|].
       split; [apply same_rest_after_same|]. split; [exact Hwf | apply store_eqv_except_refl]. }
-    destruct (wpath_direct_or_unresolvable pa _ po Ha Hok Ho Hso Hnlo) as [Hdo|[Huo _]].
+    destruct (wpath_direct_or_unresolvable pa _ po Ha Hok Ho Hnlo) as [Hdo|[Huo _]].
     2:{ destruct (run_rename_unresolvable tag pa w po pn Ha Hq Ho Hn (or_introl Huo)) as [e E].
         rewrite E. apply Hsame. }
-    destruct (wpath_direct_or_unresolvable pa _ pn Ha Hok Hn Hsn Hnln) as [Hdn|[Hun _]].
+    destruct (wpath_direct_or_unresolvable pa _ pn Ha Hok Hn Hnln) as [Hdn|[Hun _]].
     2:{ destruct (run_rename_unresolvable tag pa w po pn Ha Hq Ho Hn (or_intror Hun)) as [e E].
         rewrite E. apply Hsame. }
-    rewrite (run_rename_leaf tag pa w po pn Ha Hq Hok Ho Hn Hso Hsn Hdo Hdn Hnc).
+    rewrite (run_rename_leaf tag pa w po pn Ha Hq Hok Ho Hn Hdo Hdn Hnc).
     dlook pa po as [no|] eqn:Eo; [|rewrite fin_err; apply Hsame].
     assert (Hmoved : key_prefixb (wkey pa po) (wkey pa pn) = false -> po <> pn ->
               (st_fs (w_st w) !! wkey pa pn = None \/
